@@ -370,6 +370,38 @@ GLOBAL_READERS = {
 GLOBAL_TABLE_READS = re.compile(r"^Species\.(known_elements|known_pseudoelements|_known_elements|_known_pseudoelements|_replacement)$")
 
 
+def _parses_a_name(fn, read) -> bool:
+    """fn is the name-parsing step of Component by what it DOES: the table read is the right-hand side of an `in` / `not in` test,
+    and everything fn returns is a parameter handed through, None, or Species(<parameter>, ..) built from the tested name"""
+    par = _parents(fn)
+    p_ = par.get(read)
+    if not (isinstance(p_, ast.Compare) and len(p_.ops) == 1 and isinstance(p_.ops[0], (ast.In, ast.NotIn)) and p_.comparators[0] is read and isinstance(p_.left, ast.Name)):
+        return False
+    params = {a.arg for a in fn.args.args + fn.args.kwonlyargs + fn.args.posonlyargs}
+    tested = p_.left.id
+    if tested not in params:
+        return False
+    rets = [r for r in ast.walk(fn) if isinstance(r, ast.Return)]
+    built = 0
+    local_built = set()
+    for a in ast.walk(fn):
+        if isinstance(a, ast.Assign) and len(a.targets) == 1 and isinstance(a.targets[0], ast.Name) and isinstance(a.value, ast.Call) and ast.unparse(a.value.func) == "Species" \
+                and a.value.args and isinstance(a.value.args[0], ast.Name) and a.value.args[0].id == tested:
+            local_built.add(a.targets[0].id)
+    for r in rets:
+        v = r.value
+        if v is None or (isinstance(v, ast.Constant) and v.value is None) or (isinstance(v, ast.Name) and v.id in params):
+            continue
+        if isinstance(v, ast.Name) and v.id in local_built:
+            built += 1
+            continue
+        if isinstance(v, ast.Call) and ast.unparse(v.func) == "Species" and v.args and isinstance(v.args[0], ast.Name) and v.args[0].id == tested:
+            built += 1
+            continue
+        return False
+    return built >= 1
+
+
 def _r6(ctx, pkg):
     """The element / pseudo-element / replacement tables of Species are process-wide and belong to whichever network was built or
     edited LAST.  Outside species.py they are read only while a name is being parsed (right after the network installed its own
@@ -390,7 +422,10 @@ def _r6(ctx, pkg):
                 if isinstance(x, ast.Attribute) and any(isinstance(p, ast.Call) and p.func is x for p in ast.walk(fn)):
                     continue        # counted once, at the call
                 n += 1
-                why = GLOBAL_READERS.get((f, qual)) or next((w for (af, aq), w in GLOBAL_READERS.items() if af == f and _helper_of(pkg, qual, aq)), None)
+                why = GLOBAL_READERS.get((f, qual)) or next((w for (af, aq), w in GLOBAL_READERS.items() if af == f and _helper_of(pkg, qual, aq, f)), None)
+                if why is None and f == "naunet/component.py" and _parses_a_name(fn, x):
+                    # the sanctioned reader by ROLE, whatever the method is called
+                    why = GLOBAL_READERS[("naunet/component.py", "Component._create_species")]
                 ctx.check(why is not None, "R6", f"{qual}:reads {t}", (f, x.lineno), f"sanctioned reader: {why}" if why else
                           f"`{qual}` reads the process-global `{t}`: what it returns depends on the network that installed its lists last, not on this network "
                           "(render A, build B, render A again gives different files)",
@@ -490,7 +525,7 @@ def _r5(ctx, pkg):
                     # the same sanctioned call by ROLE: on the input object under whatever name the parameter has, in the sanctioned
                     # function or in a private helper that is a piece of it (reached from it and called from nowhere else)
                     for (aq, atext), w in SANCTIONED_INPUT_WRITES.items():
-                        if atext.split(".", 1)[-1] == f"{n.func.attr}()" and (qual == aq or _helper_of(pkg, qual, aq)):
+                        if atext.split(".", 1)[-1] == f"{n.func.attr}()" and (qual == aq or _helper_of(pkg, qual, aq, f)):
                             why = w
                 ctx.check(why is not None, "R5", f"{qual}:writes input:{text[:70]}", (f, n.lineno),
                           f"sanctioned: {why}" if why else
@@ -511,6 +546,78 @@ def _functions(pkg, f):
                 if isinstance(m, (ast.FunctionDef, ast.AsyncFunctionDef)):
                     out.append((f"{n.name}.{m.name}", m))
     return out
+
+
+def _calls_of(fn, name):
+    return [c for c in ast.walk(fn) if isinstance(c, ast.Call) and ((isinstance(c.func, ast.Attribute) and c.func.attr == name) or (isinstance(c.func, ast.Name) and c.func.id == name))]
+
+
+def _name_order_use(pkg, f, qual, fn, name, depth=0) -> str:
+    """What becomes of the order of the list bound (once) to the local `name` of fn: 'free' -- it is only scanned by comprehensions
+    that feed a set / an order-insensitive consumer, here or in the functions a private helper returns it to; 'sensitive' -- some
+    use could let the order through; 'unknown' -- it is returned to callers this rule cannot match."""
+    par = _parents(fn)
+    params = {a.arg for a in fn.args.args + fn.args.kwonlyargs + fn.args.posonlyargs}
+    stores = [n for n in ast.walk(fn) if isinstance(n, ast.Name) and n.id == name and isinstance(n.ctx, (ast.Store, ast.Del))]
+    if len(stores) != 1 or name in params:
+        return "sensitive"
+    verdict = "free"
+    loads = [n for n in ast.walk(fn) if isinstance(n, ast.Name) and n.id == name and isinstance(n.ctx, ast.Load)]
+    for l in loads:
+        pl = par.get(l)
+        if isinstance(pl, ast.comprehension) and pl.iter is l:
+            comp = par.get(pl)
+            pc = par.get(comp)
+            if isinstance(comp, ast.SetComp):
+                continue
+            if isinstance(comp, (ast.ListComp, ast.GeneratorExp)) and isinstance(pc, ast.Call) and isinstance(pc.func, ast.Name) and pc.func.id in ORDER_FREE and comp in pc.args:
+                continue
+            return "sensitive"
+        idx = None
+        ret = pl if isinstance(pl, ast.Return) else None
+        if isinstance(pl, ast.Tuple) and isinstance(par.get(pl), ast.Return):
+            ret, idx = par.get(pl), pl.elts.index(l)
+        if ret is None:
+            return "sensitive"
+        # handed back: the callers of a private helper go on with it
+        if not _private(qual.split(".")[-1]):
+            return "sensitive"
+        users = _users_of(pkg, f, qual) if depth < 3 else None
+        if not users:
+            verdict = "unknown"
+            continue
+        fns, _ = _top_functions(pkg, f)
+        for u in sorted(users):
+            ufn = fns.get(u)
+            if ufn is None:
+                verdict = "unknown"
+                continue
+            upar = _parents(ufn)
+            for c in _calls_of(ufn, qual.split(".")[-1]):
+                a = upar.get(c)
+                tgt = a.targets[0] if isinstance(a, ast.Assign) and a.value is c and len(a.targets) == 1 else None
+                if idx is not None:
+                    tgt = tgt.elts[idx] if isinstance(tgt, ast.Tuple) and idx < len(tgt.elts) else None
+                if not isinstance(tgt, ast.Name):
+                    verdict = "unknown"
+                    continue
+                v = _name_order_use(pkg, f, u, ufn, tgt.id, depth + 1)
+                if v == "sensitive":
+                    return v
+                if v == "unknown":
+                    verdict = v
+    return verdict if loads else "sensitive"
+
+
+def _list_order_use(pkg, f, qual, fn, node) -> str:
+    """the same for the value of the list(..) call `node` (possibly concatenated with other lists) that is bound to a local"""
+    par = _parents(fn)
+    e, p_ = node, par.get(node)
+    while isinstance(p_, ast.BinOp) and isinstance(p_.op, ast.Add):
+        e, p_ = p_, par.get(p_)
+    if not (isinstance(p_, ast.Assign) and p_.value is e and len(p_.targets) == 1 and isinstance(p_.targets[0], ast.Name)):
+        return "sensitive"
+    return _name_order_use(pkg, f, qual, fn, p_.targets[0].id)
 
 
 def _exempt_by_role(f, qual, fn, it, how):
@@ -548,8 +655,17 @@ def _r1(ctx, pkg):
                 src = " ".join(ast.unparse(it).split())
                 key = f"{qual}:{how}:{src[:60]}"
                 why = EXEMPT.get((f, qual, src)) or _exempt_by_role(f, qual, fn, it, how)
+                use = None
+                if not why and how in ("list()", "tuple()"):
+                    # judged by what is done with the list: scanned into sets only (also by the callers a private helper returns it to)
+                    use = _list_order_use(pkg, f, qual, fn, node)
+                    if use == "free":
+                        why = "the list is only scanned by comprehensions whose results go into sets: its order reaches nothing"
                 if why:
                     ctx.ok("R1", key, (f, node.lineno), f"exempt: {why}")
+                elif use == "unknown":
+                    ctx.unrec("R1", key, (f, node.lineno), f"{how} over the set-typed value `{src[:80]}` is handed back by a private helper to callers this rule does not match: "
+                              "whether its order reaches a result is not decided")
                 else:
                     ctx.bad("R1", key, (f, node.lineno),
                             f"{how} over the set-typed value `{src[:80]}`: the order of its elements depends on the interpreter's hash seed and reaches the result",
@@ -588,71 +704,211 @@ def _r2(ctx, pkg):
     allowed_now = {("naunet/templateloader.py", "TemplateLoader.__init__"), ("naunet/configuration.py", "BaseConfiguration.content")}
     for f, line in now:
         fn = _enclosing(pkg.modules[f], None, line)
-        ok = (f, fn) in allowed_now or any(f == af and _helper_of(pkg, fn, aq) for af, aq in allowed_now)
+        ok = (f, fn) in allowed_now or any(f == af and _helper_of(pkg, fn, aq, f) for af, aq in allowed_now)
         if not ok and fn and "." not in fn and _private(fn):
             # a private module-level function used by nobody but a sanctioned function of the same module is a piece of it
             users = {_enclosing(pkg.modules[f], x) for x in ast.walk(pkg.modules[f]) if isinstance(x, ast.Name) and x.id == fn and isinstance(x.ctx, ast.Load)}
             elsewhere = any(isinstance(x, (ast.Name, ast.Attribute, ast.alias)) and (getattr(x, "id", None) == fn or getattr(x, "attr", None) == fn or getattr(x, "name", "").split(".")[-1] == fn)
                             for g_ in pkg.files if g_ != f for x in ast.walk(pkg.modules[g_]))
-            ok = bool(users) and not elsewhere and all((f, u) in allowed_now or any(f == af and _helper_of(pkg, u, aq) for af, aq in allowed_now) for u in users)
+            ok = bool(users) and not elsewhere and all((f, u) in allowed_now or any(f == af and _helper_of(pkg, u, aq, f) for af, aq in allowed_now) for u in users)
         ctx.check(ok, "R2", f"{f}:{fn}:datetime.now", (f, line), "embedded date (excluded by the property)" if ok else "an additional time source reaches generated output")
     for f, line, s in bad:
         # render.py checks directories with os.listdir only for emptiness
         fn = _enclosing(pkg.modules[f], None, line)
-        if s in ("os.listdir", "os.scandir") and _only_emptiness_tested(pkg.modules[f], line, s):
+        use = _listing_use(pkg, f, line, s) if s in ("os.listdir", "os.scandir") else "used"
+        if use == "empty":
             # (the commands check whether an output directory is empty: neither the names nor their order reach anything written)
             ctx.ok("R2", f"{f}:{fn}:{s}", (f, line), "directory listing used only as an emptiness test")
+            continue
+        if use == "unknown":
+            ctx.unrec("R2", f"{f}:{fn}:{s}", (f, line), f"`{s}` is handed back by a private helper to callers this rule does not match: whether more than its emptiness is used is not decided")
             continue
         ctx.bad("R2", f"{f}:{fn}:{s}", (f, line), f"`{s}` is a source of run-to-run variation in a module that takes part in code generation")
     ctx.floor("R2", "datetime.now sites", len(now), 2)
 
 
-def _only_emptiness_tested(mod, line, fname) -> bool:
-    """every call of `fname` on that line is used for its truth value / length only: the operand of `not`, the test of an if / while /
-    conditional expression, an operand of and / or, the argument of len() / bool() / any()"""
+def _truth_use(par, n) -> bool:
+    """the expression n is used for its truth value / length only: the operand of `not`, the test of an if / while / conditional
+    expression / assert, an operand of and / or that is itself so used, the argument of len() / bool() / any()"""
+    p_ = par.get(id(n))
+    if isinstance(p_, ast.UnaryOp) and isinstance(p_.op, ast.Not):
+        return True
+    if isinstance(p_, (ast.If, ast.While, ast.IfExp, ast.Assert)) and p_.test is n:
+        return True
+    if isinstance(p_, ast.BoolOp):
+        return True
+    if isinstance(p_, ast.Call) and isinstance(p_.func, ast.Name) and p_.func.id in ("len", "bool", "any") and n in p_.args:
+        return True
+    return False
+
+
+def _listing_use(pkg, f, line, fname) -> str:
+    """What every call of `fname` on that line is used for: 'empty' -- only its truth value / length (directly, through a local
+    that is only tested, or through the value a private helper hands back to callers that only test it); 'used' -- something else is
+    done with the names; 'unknown' -- the listing goes where this rule does not follow it."""
+    mod = pkg.modules[f]
     parent = {}
     for n in ast.walk(mod):
         for ch in ast.iter_child_nodes(n):
             parent[id(ch)] = n
     calls = [n for n in ast.walk(mod) if isinstance(n, ast.Call) and getattr(n, "lineno", None) == line and ast.unparse(n.func) == fname]
     if not calls:
-        return False
+        return "used"
+    fns, where = _top_functions(pkg, f)
+
+    def value_use(n, qual, depth):
+        """the use of the value of expression n, written in function qual"""
+        if _truth_use(parent, n):
+            return "empty"
+        p_ = parent.get(id(n))
+        fn = fns.get(qual)
+        if fn is None:
+            return "used"
+        if isinstance(p_, ast.Assign) and p_.value is n and len(p_.targets) == 1 and isinstance(p_.targets[0], ast.Name):
+            name = p_.targets[0].id
+            verdict = "empty"
+            stores = [x for x in ast.walk(fn) if isinstance(x, ast.Name) and x.id == name and isinstance(x.ctx, (ast.Store, ast.Del))]
+            loads = [x for x in ast.walk(fn) if isinstance(x, ast.Name) and x.id == name and isinstance(x.ctx, ast.Load)]
+            if len(stores) != 1:
+                return "used"
+            for l in loads:
+                v = value_use(l, qual, depth)
+                if v == "used":
+                    return v
+                if v == "unknown":
+                    verdict = v
+            return verdict
+        if isinstance(p_, ast.Return) and p_.value is n:
+            if not _private(qual.split(".")[-1]):
+                return "used"
+            users = _users_of(pkg, f, qual) if depth < 3 else None
+            if not users:
+                return "unknown"
+            verdict = "empty"
+            for u in sorted(users):
+                if u not in fns:
+                    verdict = "unknown"
+                    continue
+                for c in _calls_of(fns[u], qual.split(".")[-1]):
+                    v = value_use(c, u, depth + 1)
+                    if v == "used":
+                        return v
+                    if v == "unknown":
+                        verdict = v
+            return verdict
+        return "used"
+
+    verdict = "empty"
     for c in calls:
-        p_ = parent.get(id(c))
-        ok = (isinstance(p_, ast.UnaryOp) and isinstance(p_.op, ast.Not)) or (isinstance(p_, (ast.If, ast.While, ast.IfExp)) and p_.test is c) \
-            or isinstance(p_, ast.BoolOp) or (isinstance(p_, ast.Call) and isinstance(p_.func, ast.Name) and p_.func.id in ("len", "bool", "any") and c in p_.args)
-        if not ok:
-            return False
-    return True
+        v = value_use(c, where.get(id(c), ""), 0)
+        if v == "used":
+            return v
+        if v == "unknown":
+            verdict = v
+    return verdict
 
 
-def _helper_of(pkg, qual, owner_qual) -> bool:
-    """qual is a private method of the class of owner_qual that is reached (through self./cls. calls of private methods) from
-    owner_qual and called from nowhere else in the class: it is a piece of owner_qual"""
-    if "." not in qual or "." not in owner_qual or qual.split(".")[0] != owner_qual.split(".")[0]:
-        return False
-    cname, m = qual.split(".", 1)
-    ci = pkg.classes.get(cname)
-    if ci is None or not _private(m) or m not in ci.methods:
-        return False
+def _top_functions(pkg, f):
+    """{qual: fn} of the module-level functions and of the methods of the module-level classes of file f, and {id(node): qual} for
+    every node inside one of them (a nested function belongs to the function it is written in)"""
+    cache = pkg.__dict__.setdefault("_c17_top", {})
+    if f in cache:
+        return cache[f]
+    fns, where = {}, {}
+    mod = pkg.modules[f]
+    for n in mod.body:
+        if isinstance(n, (ast.FunctionDef, ast.AsyncFunctionDef)):
+            fns[n.name] = n
+        elif isinstance(n, ast.ClassDef):
+            for m in n.body:
+                if isinstance(m, (ast.FunctionDef, ast.AsyncFunctionDef)):
+                    # a property and its setter share a name: both are kept (the first under the bare name)
+                    q = f"{n.name}.{m.name}"
+                    k = 0
+                    while q in fns:
+                        k += 1
+                        q = f"{n.name}.{m.name}#{k}"
+                    fns[q] = m
+    for q, fn in fns.items():
+        for x in ast.walk(fn):
+            where[id(x)] = q.split("#")[0]
+    cache[f] = (fns, where)
+    return cache[f]
 
-    def callees(fn):
-        return {c.func.attr for c in ast.walk(fn) if isinstance(c, ast.Call) and isinstance(c.func, ast.Attribute) and isinstance(c.func.value, ast.Name)
-                and c.func.value.id in ("self", "cls") and c.func.attr in ci.methods}
-    owner = owner_qual.split(".", 1)[1]
-    if owner not in ci.methods:
+
+def _file_of(pkg, qual):
+    """the file that defines `Class.method` / a module-level function name (None when not exactly one does)"""
+    if "." in qual:
+        ci = pkg.classes.get(qual.split(".")[0])
+        return ci.file if ci is not None else None
+    fs = [f for f in pkg.files if any(isinstance(n, (ast.FunctionDef, ast.AsyncFunctionDef)) and n.name == qual for n in pkg.modules[f].body)]
+    return fs[0] if len(fs) == 1 else None
+
+
+def _users_of(pkg, f, qual):
+    """Who uses the private helper `qual` of file f (a method `Class._m` or a module-level function `_f`): the set of qualified
+    functions of f that CALL it, or None when it is used in any other way -- named without being called (handed around, decorated
+    with, aliased), referred to outside a function or from another file.  A private METHOD is found by its attribute name on any
+    receiver (self._m(..), cls._m(..), Class._m(..)); a module FUNCTION by its bare name."""
+    name = qual.split(".")[-1]
+    if not _private(name):
+        return None
+    fns, where = _top_functions(pkg, f)
+    if qual not in fns:
+        return None
+    is_method = "." in qual
+    for g_ in pkg.files:
+        if g_ == f:
+            continue
+        for x in ast.walk(pkg.modules[g_]):
+            if (isinstance(x, ast.Attribute) and x.attr == name) or (isinstance(x, ast.Name) and x.id == name and not is_method) \
+                    or (isinstance(x, ast.alias) and x.name.split(".")[-1] == name):
+                return None
+    mod = pkg.modules[f]
+    called = {id(c.func) for c in ast.walk(mod) if isinstance(c, ast.Call)}
+    users = set()
+    for x in ast.walk(mod):
+        if is_method:
+            ref = isinstance(x, ast.Attribute) and x.attr == name
+        else:
+            ref = (isinstance(x, ast.Name) and x.id == name) or (isinstance(x, ast.Attribute) and x.attr == name)
+        if not ref:
+            continue
+        if id(x) not in called or id(x) not in where or not isinstance(x.ctx, ast.Load):
+            return None
+        if where[id(x)] != qual:            # (a helper that calls itself is still the same piece)
+            users.add(where[id(x)])
+    # a second definition of the same name in the file: which one a call reaches is not decided here
+    ndef = sum(1 for x in ast.walk(mod) if isinstance(x, (ast.FunctionDef, ast.AsyncFunctionDef)) and x.name == name)
+    if ndef != 1:
+        return None
+    return users
+
+
+def _piece_of(pkg, f, qual, owners, _seen=None) -> bool:
+    """`qual` (file f) is a private helper -- method or module-level function -- that nobody uses but the functions `owners` of the
+    same file and other private helpers that are themselves pieces of them: what it does is done by, and only by, those owners.
+    (Whatever a piece was moved into -- a method, a classmethod, a function of the module -- and however many levels deep.)"""
+    if qual in owners:
+        return True
+    _seen = _seen or set()
+    if qual in _seen:
         return False
-    reach, todo = set(), [owner]
-    while todo:
-        x = todo.pop()
-        for y in callees(ci.methods[x]):
-            if y not in reach and _private(y):
-                reach.add(y)
-                todo.append(y)
-    if m not in reach:
+    users = _users_of(pkg, f, qual)
+    if not users:
         return False
-    others = [k for k, fn in ci.methods.items() if k != owner and k not in reach and m in callees(fn)]
-    return not others
+    return all(u in owners or _piece_of(pkg, f, u, owners, _seen | {qual}) for u in users)
+
+
+def _helper_of(pkg, qual, owner_qual, f=None) -> bool:
+    """qual is a private method of the class of owner_qual, or a private function of its module, that is reached from owner_qual
+    (through other such helpers) and used by nobody else: it is a piece of owner_qual"""
+    if not qual or qual == owner_qual:
+        return False
+    f = f or _file_of(pkg, owner_qual)
+    if f is None or f not in pkg.modules:
+        return False
+    return _piece_of(pkg, f, qual, {owner_qual})
 
 
 def _enclosing(mod, node, line=None):
@@ -711,7 +967,7 @@ def _global_writes(pkg):
                 if isinstance(n, ast.Call) and isinstance(n.func, ast.Attribute) and n.func.attr in MUTATORS:
                     o = n.func.value
                     if isinstance(o, ast.Attribute) and o.attr in names and isinstance(o.value, ast.Name) and o.value.id in ("cls", "Species", "KROMEReaction", "chemistrydata", "self"):
-                        if o.value.id == "self" and o.attr in ("_known_elements",) and "Species" not in qual:
+                        if o.value.id == "self" and o.attr in ("_known_elements",) and f != SP:
                             continue
                         out.append((f, qual, n.lineno, o.value.id, o.attr, n.func.attr))
                     elif isinstance(o, ast.Name) and o.id in names:
@@ -963,7 +1219,7 @@ def _r3(ctx, pkg):
             else:
                 ctx.bad("R3", key, (f, line), "the patch renderer changes the known-element list and does not restore it")
             continue
-        ok = q in SANCTIONED or _only_called_by_sanctioned(pkg, q)
+        ok = q in SANCTIONED or _only_called_by_sanctioned(pkg, q, f)
         ctx.check(ok, "R3", f"writer {key}", (f, line), f"sanctioned writer: {SANCTIONED.get(q, '')}" if ok else
                   f"`{qual}` writes the process-global `{attr}` ({how}); it is not one of the sanctioned writers: state set for one network leaks into the next one built in the same process")
     # installation discipline in Network
@@ -1046,20 +1302,13 @@ def _r3(ctx, pkg):
                   "values configured for one network are used for every later network in the process")
 
 
-def _only_called_by_sanctioned(pkg, qual) -> bool:
-    """a private method of a class all of whose callers (inside the class; nobody outside may call it) are sanctioned writers does
-    their work: the write is theirs"""
-    if "." not in qual:
+def _only_called_by_sanctioned(pkg, qual, f=None) -> bool:
+    """a private helper (a method of the class, or a function of the module the piece was moved into) all of whose users are
+    sanctioned writers of the same file, or such helpers in turn, does their work: the write is theirs"""
+    f = f or _file_of(pkg, qual)
+    if f is None or f not in pkg.modules:
         return False
-    cname, m = qual.split(".", 1)
-    ci = pkg.classes.get(cname)
-    if ci is None or not _private(m):
-        return False
-    callers = [k for k, fn in ci.methods.items() if k != m and any(
-        isinstance(c, ast.Call) and isinstance(c.func, ast.Attribute) and c.func.attr == m and isinstance(c.func.value, ast.Name) and c.func.value.id in ("cls", "self", cname)
-        for c in ast.walk(fn))]
-    used_elsewhere = any(isinstance(n, ast.Attribute) and n.attr == m for f_ in pkg.files if f_ != ci.file for n in ast.walk(pkg.modules[f_]))
-    return bool(callers) and not used_elsewhere and all(f"{cname}.{k}" in SANCTIONED for k in callers)
+    return _piece_of(pkg, f, qual, set(SANCTIONED))
 
 
 def _patch_restores(pkg):
